@@ -143,12 +143,62 @@ func isErrorType(v ssa.Value) bool {
 	return v.Type().String() == "error"
 }
 
+// c09FsDerived: which of the leaves of a returned error is a file-system error (""= none).
+func c09FsDerived(e *engine, leaves []ssa.Value) string {
+	fsDerived := ""
+	for _, l := range leaves {
+		switch x := l.(type) {
+		case *ssa.Parameter:
+			fsDerived = "parameter " + x.Name()
+		case *ssa.Extract:
+			if c, ok := x.Tuple.(*ssa.Call); ok {
+				rf := refOf(c.Common())
+				if c.Call.StaticCallee() == e.handleFile || rf.is(fp(fsInt), "", "WalkDirUnsorted") {
+					continue
+				}
+				fsDerived = "result of " + rf.String()
+			}
+		case *ssa.Call:
+			rf := refOf(x.Common())
+			if x.Call.StaticCallee() == e.handleFile || rf.is(fp(fsInt), "", "WalkDirUnsorted") {
+				continue
+			}
+			if x.Call.IsInvoke() && x.Call.Method.Name() == "Err" {
+				continue
+			}
+			if rf.Pkg == "fmt" && rf.Name == "Errorf" {
+				continue
+			}
+			fsDerived = "result of " + rf.String()
+		}
+	}
+	return fsDerived
+}
+
 func c09Fatal(p *Prog, r *Report, e *engine) {
 	for _, fn := range []*ssa.Function{e.handleFile, e.walkIndividual} {
 		a := newFA(p, r, fn)
 		n := 0
 		for i, ret := range returnsOf(fn) {
 			if len(ret.Results) != 1 || isNilConst(retVal(ret, 0)) {
+				continue
+			}
+			// (a variable assigned in several branches and returned after they join is judged per
+			// branch: the guard must hold where that branch's value is committed)
+			perBranch := phiLeaves(retVal(ret, 0), ret.Block())
+			if len(perBranch) > 1 {
+				for k, pl := range perBranch {
+					fsd := c09FsDerived(e, errLeaves(pl.val))
+					if fsd == "" {
+						continue
+					}
+					n++
+					var target ssa.Instruction = ret
+					if pl.edge != nil && len(pl.edge.From.Instrs) > 0 {
+						target = pl.edge.From.Instrs[len(pl.edge.From.Instrs)-1]
+					}
+					a.requireGuard("D1-fatal-only-on-request", fmt.Sprintf("error-return#%d.%d(%s)", i, k, short(fsd, 60)), target, true, "errorOnFSErrors", condFieldBool("walkContext", "errorOnFSErrors"))
+				}
 				continue
 			}
 			leaves := errLeaves(retVal(ret, 0))
